@@ -1,4 +1,5 @@
 import Batteries.Tactic.Alias
+import GenlmModel.Proofs.MinDet
 import GenlmModel.Proofs.Wfsa2
 import GenlmModel.Proofs.Det
 /-! # C13 — pushing and trimming preserve the language (determinisation: decided per output) -/
@@ -22,4 +23,8 @@ alias determinize_deterministic := Genlm.det_deterministic
 alias determinize_preserves := Genlm.det_preserves
 alias determinize_forward_invariant := Genlm.det_forward_invariant
 alias determinize_no_zero_division_of_positive := Genlm.det_no_zeroDiv_of_pos
+/-- determinisation-based minimisation (reverse, determinize, trim, twice): same weights, deterministic result -/
+alias min_det_preserves := Genlm.minDet_preserves
+alias min_det_deterministic := Genlm.minDet_result_deterministic
+alias min_det_with_push_preserves := Genlm.minDet_push_preserves_of_coacc
 end Genlm.Props.C13
